@@ -65,6 +65,11 @@ type Result struct {
 	LockWaits   int // times a task was found waiting for a held sim-lock
 }
 
+type heldLock struct {
+	id   uintptr
+	task int
+}
+
 type sched struct {
 	mu       spin
 	pending  []*entry
@@ -75,7 +80,7 @@ type sched struct {
 	// scheduler-goroutine private
 	cfg   Config
 	tasks map[uint64]int
-	held  map[uintptr]int
+	held  []heldLock // no Go map here: the runtime's map code carries its own race annotations
 	res   Result
 	hash  [20]byte
 	last  int
@@ -152,7 +157,13 @@ func Release(id uintptr) {
 	s.mu.lock()
 	// the scheduler goroutine reads held only while every task is parked, and
 	// this task is running, so a plain write under the spin lock is safe.
-	delete(s.held, id)
+	for i := range s.held {
+		if s.held[i].id == id {
+			s.held[i] = s.held[len(s.held)-1]
+			s.held = s.held[:len(s.held)-1]
+			break
+		}
+	}
 	s.mu.unlock()
 }
 
@@ -168,6 +179,18 @@ func Knob(name string, v int) int {
 		return o
 	}
 	return v
+}
+
+//go:norace
+func (s *sched) isHeld(id uintptr) bool {
+	s.mu.lock()
+	defer s.mu.unlock()
+	for i := range s.held {
+		if s.held[i].id == id {
+			return true
+		}
+	}
+	return false
 }
 
 //go:norace
@@ -248,11 +271,9 @@ func (s *sched) loop() {
 		// runnable = not waiting for a held sim-lock
 		run := p[:0:0]
 		for _, e := range p {
-			if e.lock != 0 {
-				if _, held := s.held[e.lock]; held {
-					s.res.LockWaits++
-					continue
-				}
+			if e.lock != 0 && s.isHeld(e.lock) {
+				s.res.LockWaits++
+				continue
 			}
 			run = append(run, e)
 		}
@@ -289,7 +310,9 @@ func (s *sched) loop() {
 		}
 		s.last = id
 		if chosen.lock != 0 {
-			s.held[chosen.lock] = id
+			s.mu.lock()
+			s.held = append(s.held, heldLock{chosen.lock, id})
+			s.mu.unlock()
 		}
 		var rec [16]byte
 		binary.LittleEndian.PutUint32(rec[0:], uint32(id))
@@ -325,9 +348,12 @@ func Run(t *testing.T, cfg Config, root func()) Result {
 	if cfg.Src == nil {
 		cfg.Src = choice.Replay(nil)
 	}
-	s := &sched{cfg: cfg, tasks: map[uint64]int{}, held: map[uintptr]int{}}
+	s := &sched{cfg: cfg, tasks: map[uint64]int{}}
 	s.res.Sites = map[string]int{}
-	func() {
+	// The bubble runs in a sub-test: when the race detector reported something
+	// during the run, testing/synctest fails the bubble's T and calls FailNow on
+	// its parent, which must not unwind the worker's own test goroutine.
+	t.Run("sim", func(t *testing.T) {
 		defer func() {
 			// the end-of-bubble deadlock panic of synctest (all goroutines blocked)
 			if r := recover(); r != nil {
@@ -360,6 +386,6 @@ func Run(t *testing.T, cfg Config, root func()) Result {
 			<-schedDone
 			cur = nil
 		})
-	}()
+	})
 	return s.res
 }
